@@ -117,8 +117,8 @@ func (p *proxy) call(ctx erpc.UnknownCallCtx) (interface{}, *erpc.Status) {
 	})
 	stat := callcmd.Status()
 	if !stat.OK() && stat.Code() < 200 && stat.Code() > 99 {
-		stat.SetCode(erpc.CodeBadGateway)
-		stat.SetMsg(erpc.CodeText(erpc.CodeBadGateway))
+		// a new status: the one returned may be a status shared by the whole process
+		stat = erpc.NewStatus(erpc.CodeBadGateway, erpc.CodeText(erpc.CodeBadGateway), stat.Cause())
 	}
 	return result, stat
 }
@@ -141,8 +141,8 @@ func (p *proxy) push(ctx erpc.UnknownPushCtx) *erpc.Status {
 	label.ServiceMethod = ctx.ServiceMethod()
 	stat := p.pushForwarder(&label).Push(label.ServiceMethod, ctx.InputBodyBytes(), settings...)
 	if !stat.OK() && stat.Code() < 200 && stat.Code() > 99 {
-		stat.SetCode(erpc.CodeBadGateway)
-		stat.SetMsg(erpc.CodeText(erpc.CodeBadGateway))
+		// a new status: the one returned may be a status shared by the whole process
+		stat = erpc.NewStatus(erpc.CodeBadGateway, erpc.CodeText(erpc.CodeBadGateway), stat.Cause())
 	}
 	return stat
 }
